@@ -23,6 +23,7 @@ func checkC11(r *Result) {
 	r.rule("ONCE-SLASH", "SlashAndJailReporter is called only where the fee total reaches the slash amount, and never from a block hook")
 	r.rule("FLAG-FIRST", "the aggregate is flagged before the stake is escrowed, the reporter jailed afterwards")
 	r.rule("ESCROW-RECORD", "the per-backer record stores amounts that add up to each origin's share, and the requested total")
+	r.rule("CHASE-WALK", "no loop that follows stake through entries removes from the slice it ranges over and keeps iterating (decided for every range loop of the repository)")
 	r.rule("REPORT-AUTHENTIC", "a dispute is created only for a report that was compared with the oracle's stored report")
 
 	need := func(name string) *ssa.Function {
@@ -337,6 +338,20 @@ func checkC11(r *Result) {
 		}
 		r.check(found != "", "REPORT-AUTHENTIC", "(x/dispute/keeper.msgServer).ProposeDispute # the disputed report is looked up in the oracle's report store", P.Pos(pd.Pos()), "no function reachable from ProposeDispute reads a stored micro-report: value and power of MsgProposeDispute.Report are taken at face value and size the fee, the slash and the jail ("+found+")")
 	}
+	// CHASE-WALK
+	{
+		fs, nf, nr := rangeMutations(P)
+		for _, f := range fs {
+			r.bad("CHASE-WALK", f.Fn+" # "+f.What, P.Pos(f.Pos), "the range expression is evaluated once: after a removal the remaining iterations read shifted elements and index past the shortened slice")
+		}
+		n, err := walkPositiveExample()
+		r.check(err == nil && n == 2, "CHASE-WALK", "detector fires on the built-in positive example (method that shrinks the ranged field; direct re-slice) and not on remove-then-break", "-", fmt.Sprintf("%d findings on the example (want 2), err=%v", n, err))
+		r.check(nf > 900 && nr > 150, "CHASE-WALK", "every function declaration of the repository scanned", "-", fmt.Sprintf("%d functions, %d range loops scanned, %d findings", nf, nr, len(fs)))
+		if du := P.Func("(x/reporter/keeper.Keeper).deductUnbondingDelegation"); du == nil {
+			r.broken("anchor deductUnbondingDelegation does not resolve")
+		}
+	}
+	r.minCount("CHASE-WALK", 2)
 	r.minCount("LIN-SLASH", 5)
 	r.minCount("ONCE-SLASH", 6)
 	r.minCount("ESCROW-RECORD", 4)
